@@ -833,10 +833,13 @@ where
 	let key_id = block_fees.key_id();
 	let parent_key_id = wallet.parent_key_id();
 
+	// A supplied key id is only reused when it names a coinbase candidate
+	// that is still unconfirmed (a mining node re-requesting its coinbase),
+	// never a record that holds anything else
 	let key_id = match key_id {
-		Some(key_id) => match keys::retrieve_existing_key(wallet, key_id, None) {
-			Ok(k) => k.0,
-			Err(_) => keys::next_available_key(wallet, keychain_mask)?,
+		Some(key_id) => match wallet.get(&key_id, &None) {
+			Ok(o) if o.is_coinbase && o.status == OutputStatus::Unconfirmed => o.key_id,
+			_ => keys::next_available_key(wallet, keychain_mask)?,
 		},
 		None => keys::next_available_key(wallet, keychain_mask)?,
 	};
